@@ -172,7 +172,9 @@ def sessStep (d : SessDrv) (w : List String) : SessDrv × String :=
   | ["disc"] => run .disconnected
   | ["stop"] => run .stop
   | "send" :: rest => (match parseFields? rest with
-      | some f => run (.send { kind := "D", seq := 0, f := f })
+      | some f =>
+        -- a leading `35=<type>` names the application message type (default D)
+        run (.send { kind := ((f.find? (·.1 == 35)).map (·.2)).getD "D", seq := 0, f := f.filter (·.1 != 35) })
       | none => (d, "bad-op"))
   | ["flush"] => run .flush
   | ["stime", "in"] => run (.sessionTime true true)
